@@ -45,9 +45,8 @@ class C10(EngineProp):
     id = 'C10'
     lean_modules = ['RSocketModel.Props.C10']
     profiles = ['legal', 'cancel', 'quiesce']
-    claimed = False   # until the Lean theorems land
     technique = 'Lean 4 proof (table/cache membership invariant of the engine model) + event-level differential correspondence incl. final table and fragment cache'
-    level_text = 'see DESIGN.md §5 C10'
+    level_text = ('c10_channel_both_closed_not_registered (state invariant over every reachable state: a registered handler never has both directions closed), c10_channel_second_direction, c10_rr_requester_response, c10_stream_requester_terminal, c10_responder_cancelled, c10_local_endings, c10_lost_clears and c10_id_reusable are kernel-checked on the engine model; the model is replayed on the entry-point sequence observed from a real endpoint and its final stream table and fragment cache are compared; the direct oracle computes which interactions terminated and requires them absent from the real table/cache, then re-uses their ids.')
     level_note = 'Trusted: as C07. A channel is terminated when both directions are closed (the library\'s half-close semantics, pinned by the suite).'
     design_ref = '§5 C10'
     rule = ('as C07; at quiescence the stream table and fragment cache of the endpoint are read and every interaction that terminated (by the definition in DESIGN §5 C10) must be '
